@@ -43,6 +43,8 @@ def build(desc):
     c.n = int(desc.get("n") or rng.randint(3, max(4, nmax + 1)))
     c.d = int(rng.randint(1, 4))
     c.data = desc.get("data") or gen.DATA_MODES[rng.randint(len(gen.DATA_MODES))]
+    if c.data == "bow":
+        c.d = gen.BOW_DIM
     c.labels = desc.get("labels") or gen.LABEL_REGIMES[rng.randint(len(gen.LABEL_REGIMES))]
     if c.labels == "full" and desc.get("cmode") not in ("feat", "idx_any"):
         c.labels = "lastone"
@@ -72,6 +74,11 @@ def build(desc):
             c.candidates = np.concatenate([c.candidates, c.candidates[rng.randint(k, size=int(rng.randint(1, 3)))]])
             c.has_dups = True
         c.cset = set(c.candidates.tolist())
+        if desc.get("allow_negative_candidates") and rng.rand() < 0.15:
+            # numpy-style negative indices for some entries (the same samples, written from the end)
+            neg = rng.rand(len(c.candidates)) < 0.5
+            c.candidates = np.where(neg, c.candidates - c.n, c.candidates)
+            c.has_negative = True
         c.ncols = c.n
     elif c.cmode == "idx_any":
         k = int(rng.randint(1, c.n + 1))
